@@ -9,6 +9,7 @@ import Bp7.Model.Time
 import Bp7.Model.Json
 import Bp7.Model.TsGen
 import Bp7.Model.Ffi
+import Bp7.Model.CrcTable
 import Bp7.Spec.Rfc9171
 import Bp7.Spec.Admin
 import Bp7.Driver.SecOps
@@ -121,11 +122,11 @@ def answer (line : String) : String :=
     | none => "bad-op"
   | ["crc16", h] =>
     match bytesOfHex h with
-    | some s => "ok " ++ toString (crc16 s).toNat ++ " " ++ toString (Spec.crc16 s)
+    | some s => "ok " ++ toString (crc16 s).toNat ++ " " ++ toString (Spec.crc16 s) ++ " " ++ toString (CrcCrate.x25 s).toNat
     | none => "bad-op"
   | ["crc32", h] =>
     match bytesOfHex h with
-    | some s => "ok " ++ toString (crc32c s).toNat ++ " " ++ toString (Spec.crc32c s)
+    | some s => "ok " ++ toString (crc32c s).toNat ++ " " ++ toString (Spec.crc32c s) ++ " " ++ toString (CrcCrate.castagnoli s).toNat
     | none => "bad-op"
   | ["rx", h] =>
     match bytesOfHex h with
